@@ -423,6 +423,6 @@ func init() {
 	quick = append(quick, Run{Scenario: "ugm-reload", Depth: 4, MapModes: []int{1}}, Run{Scenario: "ugm-reload-2apps", Depth: 3, MapModes: []int{1}})
 	thorough = append(thorough, Run{Scenario: "ugm-reload", Depth: 6, MapModes: []int{1, 2}}, Run{Scenario: "ugm-reload-2apps", Depth: 5, MapModes: []int{1}})
 	registerCheck(&CheckDef{Prop: "C05", Level: "model_checking", Technique: tE1, Quick: quick, Thorough: thorough,
-		QuickBudget: 150 * time.Second, ThoroughBudget: 40 * time.Minute,
+		QuickBudget: 150 * time.Second, ThoroughBudget: 12 * time.Minute,
 		Assumptions: []string{"limit reference = named entry, else wildcard entry, else none, per queue path of the latest accepted document", "the group of an application is the one the user tracker DAO reports for it"}})
 }
